@@ -28,7 +28,27 @@ Zones == { <<90>>, <<43,48,48>>, <<45,48,52>>, <<45,48,52,58,51,48>>, <<43,48,53
 Strings == Dates \cup Clocks \cup {c \o z : c \in Clocks, z \in Zones}
            \cup {d \o <<84>> \o c : d \in Dates, c \in Clocks} \cup {d \o <<32>> \o c : d \in {<<50,48,49,53,45,48,56,45,48,50>>}, c \in Clocks}
            \cup {d \o <<84>> \o c \o z : d \in Dates, c \in {<<48,48,58,48,48,58,48,48>>, <<50,51,58,53,57,58,53,57>>, <<48,50,58,51,48,58,48,48,46,49,50,51,52,53,54,55,56,57>>}, z \in Zones}
-StrSeq == SetToSeq(Strings)
+\* values in and around the hours America/New_York skips (2015-03-08 02:00-03:00) and repeats (2015-11-01 01:00-02:00)
+DSTStrings == {
+    <<50,48,49,53,45,49,49,45,48,49,84,48,49,58,51,48,58,48,48>>,   \* 2015-11-01T01:30:00
+    <<50,48,49,53,45,49,49,45,48,49,84,48,49,58,51,48,58,48,48,45,48,53,58,48,48>>,   \* 2015-11-01T01:30:00-05:00
+    <<50,48,49,53,45,49,49,45,48,49,84,48,49,58,51,48,58,48,48,45,48,52,58,48,48>>,   \* 2015-11-01T01:30:00-04:00
+    <<50,48,49,53,45,49,49,45,48,49,84,48,48,58,51,48,58,48,48,45,48,52,58,48,48>>,   \* 2015-11-01T00:30:00-04:00
+    <<50,48,49,53,45,49,49,45,48,49,84,48,50,58,48,48,58,48,48>>,   \* 2015-11-01T02:00:00
+    <<50,48,49,53,45,49,49,45,48,49,84,48,54,58,48,48,58,48,48,90>>,   \* 2015-11-01T06:00:00Z
+    <<50,48,49,53,45,48,51,45,48,56,84,48,50,58,51,48,58,48,48>>,   \* 2015-03-08T02:30:00
+    <<50,48,49,53,45,48,51,45,48,56,84,48,49,58,51,48,58,48,48,45,48,53,58,48,48>>,   \* 2015-03-08T01:30:00-05:00
+    <<50,48,49,53,45,48,51,45,48,56,84,48,51,58,51,48,58,48,48,45,48,52,58,48,48>>,   \* 2015-03-08T03:30:00-04:00
+    <<50,48,49,53,45,48,51,45,48,56,84,48,51,58,48,48,58,48,48>>,   \* 2015-03-08T03:00:00
+    <<50,48,49,53,45,48,51,45,48,56,84,48,55,58,48,48,58,48,48,90>>,   \* 2015-03-08T07:00:00Z
+    <<50,48,49,53,45,49,49,45,48,49>>,   \* 2015-11-01
+    <<50,48,49,53,45,48,51,45,48,56>>,   \* 2015-03-08
+    <<50,48,49,53,45,49,49,45,48,50>>,   \* 2015-11-02
+    <<50,48,49,53,45,48,51,45,48,57>>    \* 2015-03-09
+  }
+StrSeq == SetToSeq(Strings \cup DSTStrings)
+DSTSeq == SetToSeq(DSTStrings)
+ASSUME ndJsonSerialize("dststrings.ndjson", [i \in 1..Len(DSTSeq) |-> [s |-> DSTSeq[i]]])
 ASSUME ndJsonSerialize("dtstrings.ndjson", [i \in 1..Len(StrSeq) |-> [s |-> StrSeq[i]]])
 ASSUME PrintT(<<"UNIVERSE", Len(StrSeq)>>)
 
@@ -38,7 +58,7 @@ Val(i) == ParseISO(StrSeq[i], -1)
 VARIABLES i, j, k, zone
 (* pairs: the whole grid; triples (transitivity): every 5th string, which    *)
 (* still has every type, offset and boundary instant                         *)
-Core == {n \in 1..Len(StrSeq) : n % 5 = 1}
+Core == {n \in 1..Len(StrSeq) : n % 5 = 1 \/ StrSeq[n] \in DSTStrings}
 Init == i \in 1..Len(StrSeq) /\ j = 0 /\ k = 0 /\ zone \in CtxZones
 Step == \/ j = 0 /\ j' \in 1..Len(StrSeq) /\ UNCHANGED <<i, k, zone>>
         \/ j # 0 /\ k = 0 /\ i \in Core /\ j \in Core /\ k' \in Core /\ UNCHANGED <<i, j, zone>>
@@ -58,7 +78,8 @@ PairLaw(a, b, z) ==
      (* identities through timestamptz for local times that exist in the zone *)
      /\ (a.ty \in {"date", "ts"}) =>
           LET up == Cast(a, "tstz", TRUE, z)
-          IN up.ok => LET down == Cast(up.v, a.ty, TRUE, z) IN down.ok /\ down.v = a
+          IN (up.ok /\ LocalExistsOnce(z, DayNumber(a.y, a.mo, a.d), SecOfDay(a))) =>
+               LET down == Cast(up.v, a.ty, TRUE, z) IN down.ok /\ down.v = a
 TripleLaw(a, b, c, z) ==
   LET ab == Cmp(a, b, z)  bc == Cmp(b, c, z)  ac == Cmp(a, c, z)
   IN (ab.err = "none" /\ bc.err = "none" /\ ac.err = "none" /\ ab.comparable /\ bc.comparable /\ ac.comparable) =>
